@@ -472,7 +472,6 @@ def stateful_loop(it, coll, k, n, spec, modified, body_once, env, entry, entry_v
         heap_k = dict(ctx.heap)
         heap_k.update(hh)
         # temporarily view the store at iteration k for the invariant
-        saved_store = {kk: dict(vv) for kk, vv in ctx.store.items()}
         install_state()
         inv_all = conj(spec.inv(state(k, dict(env.vars), dict(ctx.heap), ctx.store)))
         pats = state_patterns(k, list(hv.values()) + list(hh.values()) + list(hs.values()))
